@@ -183,6 +183,8 @@ var nullWidth = map[string]int64{"Bool": 1, "Int": 8, "Int8": 1, "Int16": 2, "In
 	"Float32": 4, "Float64": 8, "Pointer": 8, "Slice": 8, "String": 8}
 
 func runC03(c *Ctx) {
+	// field index / column path slices built per struct field do not share spare capacity
+	runAppendAliasRule(c, "C03.appendalias", func(fn *ssa.Function) bool { return inModule(fn) }, 40)
 	p := c.P
 	rule := "C03.nullwidth"
 	sizes := types.SizesFor("gc", c.P.Config.GOARCH)
@@ -555,6 +557,8 @@ func swapWritesOnAllPaths(pc *pathCons, fn *ssa.Function, f *types.Var) bool {
 }
 
 func runC12(c *Ctx) {
+	// pages re-indexed for the target schema stay re-indexed when sliced
+	wrapperPreservedRule(c, "C12.wrapper", "Page", "Slice", 4)
 	p := c.P
 	// polarity: explicit families
 	rule := "C12.polarity"
